@@ -401,8 +401,15 @@ func recAllTpls(c *chart.Chart, templates map[string]renderable, vals chartutil.
 	// copy that into the {{.Values}} for this template.
 	if c.IsRoot() {
 		next["Values"] = vals["Values"]
-	} else if vs, err := vals.Table("Values." + c.Name()); err == nil {
-		next["Values"] = vs
+	} else if parentVals, err := vals.Table("Values"); err == nil {
+		// The section is looked up by key, not by path: a chart name may
+		// contain a dot.
+		switch vs := parentVals[c.Name()].(type) {
+		case map[string]interface{}:
+			next["Values"] = chartutil.Values(vs)
+		case chartutil.Values:
+			next["Values"] = vs
+		}
 	}
 
 	for _, child := range c.Dependencies() {
